@@ -9,6 +9,7 @@ Fallback, Avx2, Avx2Fma; nightly: Avx512 with the FastMath tail):  whenever the 
 one-hot vectors at every index of every length of the grid)."""
 import json
 import os
+import time
 from fractions import Fraction
 
 import harness_build
@@ -245,7 +246,11 @@ def oracle_runs(ctx, thorough):
         sweep_cases, sweep_meta = [], []
         for idx, e in rows:
             L = exprun.lanes(e)
-            lens = [n for n in lens_fn(L) if thorough or n <= 9 * L + 3]
+            # quick: the 13 residues of the quick grid; thorough: additionally EVERY length below 18L for the narrow
+            # back ends (L <= 4) and every length up to 2L+1 for the wide ones
+            lens = exprun.quick_lens(L)
+            if thorough:
+                lens = sorted(set(lens) | set(exprun.full_lens(L) if L <= 4 else range(0, 2 * L + 2)))
             for n in lens:
                 for a, b, p in onehot_sweep(g, e, n):
                     sweep_cases.append(exprun.case_line(idx, e, "a", None, False, "R", 0, a, b, []))
@@ -291,7 +296,7 @@ def oracle_runs(ctx, thorough):
                   samples=[{"case": cases[mid][:200], "impl": (imp[mid] or "")[:60], "model": (mod[mid] or "")[:60],
                             "class": meta[mid][2], "n": meta[mid][1]}] if cases else [],
                   rule="(C) C04 oracle, %s build: f32/f64 sum/dot/norm/Euclid exports by name on guard-paged slices; value "
-                       "classes %s at lengths %s plus the one-hot marker at EVERY index; the implementation's result is decoded "
+                       "classes %s at lengths %s plus the one-hot marker at EVERY index of every length of the quick grid (thorough: of every length < 18L for L <= 4); the implementation's result is decoded "
                        "to an exact rational and held to the theorem's statement (bound inside the bound domain, equality inside "
                        "the exactness domain, both decided in exact arithmetic per case); implementation = model bit for bit "
                        "(stable) / within twice the bound (nightly FastMath tail); distinct = distinct case line" % (
@@ -346,11 +351,17 @@ def run(ctx):
                         "safe API under each dispatch mask: the safe wrappers add no arithmetic (C01/C09/C12 tie them to the "
                         "exports); NEON is not executable here"]
     replay_first(ctx)
+    t0 = time.time()
     ctx.prove("Props/C04.v")
+    t1 = time.time()
     symrun.run(ctx, kernels=["KSum", "KDot", "KNorm", "KEuclid"])
+    t2 = time.time()
     thorough = ctx.tier == "thorough"
     exprun.run_property(ctx, "C:float-reductions", "C04", ops=OPS, tys=["f32", "f64"], configs=("stable",),
                         classes=("random", "unit", "small", "special") if thorough else ("unit", "special"),
                         lens_fn=exprun.full_lens if thorough else exprun.quick_lens,
                         places=("R", "L", "3") if thorough else ("R",), seed_tag=4)
+    t3 = time.time()
     oracle_runs(ctx, thorough)
+    ctx.note("phases: proofs+audit %.0fs, (A) %.0fs, (C) bit-for-bit %.0fs, (C) oracle %.0fs (harness rebuilds included)" % (
+        t1 - t0, t2 - t1, t3 - t2, time.time() - t3))
